@@ -57,6 +57,7 @@ type channel struct {
 	streamBroken    atomicFlag
 	connEstablished atomicFlag
 	parentCtx       context.Context
+	reconnected     chan struct{} // signals that the stream has been re-created
 	streamCtx       context.Context
 	cancelStream    context.CancelFunc
 	responseRouters map[uint64]responseRouter
@@ -77,6 +78,7 @@ func newChannel(n *RawNode) *channel {
 		latency:         -1 * time.Second,
 		rand:            rand.New(rand.NewSource(time.Now().UnixNano())),
 		responseRouters: make(map[uint64]responseRouter),
+		reconnected:     make(chan struct{}, 1),
 	}
 	// parentCtx controls the channel and is used to shut it down
 	c.parentCtx = n.newContext()
@@ -350,6 +352,11 @@ func (c *channel) reconnect(maxRetries float64) {
 			c.gorumsStream = stream
 			c.streamBroken.clear()
 			c.streamMut.Unlock()
+			// wake up a goroutine that is waiting out a backoff delay below
+			select {
+			case c.reconnected <- struct{}{}:
+			default:
+			}
 			return
 		}
 		c.cancelStream()
@@ -371,6 +378,8 @@ func (c *channel) reconnect(maxRetries float64) {
 		select {
 		case <-time.After(time.Duration(delay)):
 			retries++
+		case <-c.reconnected:
+			// somebody else re-created the stream; the check at the top of the loop returns.
 		case <-c.parentCtx.Done():
 			return
 		}
